@@ -206,14 +206,20 @@ def _scratch_path():
     return _PATH
 
 
-def observe(text, content, by_path=False):
+def observe(text, content, by_path=False, by_fd=False):
     """Parse `text` with the implementation.  Returns (obs, exc): obs is a flat dict in the key space of
     las_ref.expected() (or None), exc is (type name, message) when the reader raised.
     by_path: the text is written to a file (bytes as they are, ASCII) and the reader is given the path."""
     import numpy as np
     LASRead = _lasread()
     try:
-        if by_path:
+        if by_fd:
+            # a file object made from a descriptor (its .name is a number), handed over without a file identity
+            with open(_scratch_path(), 'w', newline='', encoding='ascii') as f:
+                f.write(text)
+            with os.fdopen(os.open(_scratch_path(), os.O_RDONLY), 'r') as fobj:
+                las = LASRead.LASRead(fobj)
+        elif by_path:
             with open(_scratch_path(), 'w', newline='', encoding='ascii') as f:
                 f.write(text)
             las = LASRead.LASRead(_scratch_path(), 'C09')
@@ -444,6 +450,8 @@ def check_case(content, layout, canon=None, text=None):
     if L.n_deviations(layout) <= 1 and ev['obs'] is not None and not _hijacked(ev['obs']) and all(ord(c) < 128 for c in ev['text']):
         # the reader given the path of a file holding the same characters reads the same content
         obs2, exc2 = observe(ev['text'], content, by_path=True)
+        if L.n_deviations(layout) == 0 and exc2 is None and obs2 == ev['obs']:
+            obs2, exc2 = observe(ev['text'], content, by_fd=True)
         if exc2 is not None or obs2 != ev['obs']:
             keys = [] if obs2 is None else sorted((k for k in set(obs2) | set(ev['obs']) if obs2.get(k) != ev['obs'].get(k)), key=repr)[:4]
             sig = {'kind': 'path_read_differs_from_stream_read', 'oracle': 'differential', 'raised': exc2[0] if exc2 else None}
@@ -579,7 +587,7 @@ def run_shard(shard, tier):
         # a file whose NULL is 0: the default absent value -999.25 is then an ordinary reading
         nfr = shard['nfr']
         lays = None
-        for cells in itertools.product(['-999.25', L.CELL_NULL, '1.5', 'abc', '0.0'], repeat=nfr):
+        for cells in itertools.product(['-999.25', L.CELL_NULL, '1.5', 'abc', '0.0', '12.5%'], repeat=nfr):
             for ncur in (2, 3):
                 content = shape_content(null='0', ncur=ncur, nfr=nfr, nextra=0, nparam=None,
                                         cells=[cells[f] if c == 0 else ['-999.25', '7', '0'][f] for f in range(nfr) for c in range(ncur - 1)])
@@ -597,7 +605,7 @@ def run_shard(shard, tier):
                 nl = ['NULL', '', L.NULL_TEXTS[null][0], 'NULL VALUE']
                 well = head + (run + [nl] if where in ('before_null', 'both') else [nl] + (run if where == 'after_null' else []))
                 params = {'params_first': bht + PARAM_POOL[:2], 'params_last': PARAM_POOL[:1] + bht, 'both': [bht[0], PARAM_POOL[0], bht[1], PARAM_POOL[1]]}.get(where, PARAM_POOL[:1])
-                for cells in (['1.5', 'abc', L.CELL_NULL], ['abc', '2.5', '-999.25']):
+                for cells in (['1.5', 'abc', L.CELL_NULL], ['abc', '2.5', '-999.25'], ['%s', '100%', '1.5']):
                     content = L.make_content(null=null, well_head=well, well_extra=WELL_POOL[:1], curves=CURVE_POOL[:2], params=params,
                                              frames=[[x, c] for x, c in zip(('100.0', '100.5', '101.0'), cells)], vdesc=VDESC['2.0'], dups=True)
                     r.run(content, data_layouts(content, tier, False))
